@@ -87,3 +87,8 @@ func TestC02(t *testing.T) {
 	core.StartWatchdog(20 * time.Second)
 	core.RunWatched(t, P02)
 }
+
+func TestC14(t *testing.T) {
+	core.Extra("race_detector_enabled", RaceEnabled)
+	core.Run(t, P14)
+}
